@@ -1,0 +1,1 @@
+//! Hooks for property C08 (empty until needed).
